@@ -77,6 +77,7 @@ type inliner struct {
 	sites   map[*ssa.Function]int // inlined call sites per helper
 	skipped map[*ssa.Function]string
 	errs    []string
+	litArgs int // go/defer literals whose arguments were turned into captured variables
 }
 
 func addRef(v ssa.Value, in ssa.Instruction) {
@@ -1609,10 +1610,28 @@ func removeInstr(x ssa.Instruction) {
 // `defer/go func(){ h(a'...) }()` with h's body as the literal's body.
 func (in *inliner) wrapAsClosure(f *ssa.Function, instr ssa.Instruction, cc *ssa.CallCommon) {
 	g := staticCallee(cc)
+	// `go func(x T){...}(v)`: a literal started with arguments. The arguments are evaluated
+	// by the starter at the go/defer statement, so the literal equals one without parameters
+	// that captures fresh variables holding those values (the `x := v` idiom).
+	var obind []ssa.Value
+	isLit := false
+	if g == nil {
+		mc0 := cc.Value.(*ssa.MakeClosure)
+		g = mc0.Fn.(*ssa.Function)
+		obind = mc0.Bindings
+		isLit = true
+	} else if g.Parent() != nil {
+		isLit = true
+	}
 	name := fmt.Sprintf("%s$%d", f.Name(), len(f.AnonFuncs)+1)
 	sig := types.NewSignatureType(nil, nil, nil, types.NewTuple(), g.Signature.Results(), false)
 	h := ssa.XCloneFuncShell(g, name, sig, f)
 	cl := &cloner{in: in, dst: h, vm: map[ssa.Value]ssa.Value{}, bm: map[*ssa.BasicBlock]*ssa.BasicBlock{}}
+	for _, gfv := range g.FreeVars {
+		nfv := ssa.XCloneFreeVar(gfv, h)
+		h.FreeVars = append(h.FreeVars, nfv)
+		cl.vm[gfv] = nfv
+	}
 	var pro []ssa.Instruction
 	for _, p := range g.Params {
 		fv := ssa.XNewFreeVar(p.Name(), types.NewPointer(p.Type()), p.Pos(), h)
@@ -1629,12 +1648,58 @@ func (in *inliner) wrapAsClosure(f *ssa.Function, instr ssa.Instruction, cc *ssa
 		ssa.XSetBlock(ld, h.Blocks[0])
 	}
 	h.Blocks[0].Instrs = append(pro, h.Blocks[0].Instrs...)
+	if g.Recover != nil {
+		h.Recover = cl.bm[g.Recover]
+	}
+	// the body keeps its parameter in a variable of its own (the builder spills every
+	// parameter): that variable and the captured one are the same thing now
+	for _, x := range pro {
+		ld := x.(*ssa.UnOp)
+		var spill *ssa.Store
+		n := 0
+		for _, r := range *ld.Referrers() {
+			if _, isDbg := r.(*ssa.DebugRef); isDbg {
+				continue
+			}
+			n++
+			if st, ok := r.(*ssa.Store); ok && st.Val == ssa.Value(ld) {
+				spill = st
+			}
+		}
+		if n != 1 || spill == nil {
+			continue
+		}
+		t0, ok := spill.Addr.(*ssa.Alloc)
+		if !ok || t0.Parent() != h || t0.Block() != h.Blocks[0] || spill.Block() != h.Blocks[0] {
+			continue
+		}
+		removeInstr(spill)
+		replaceUses(t0, ld.X)
+		removeInstr(t0)
+		var locals []*ssa.Alloc
+		for _, l := range h.Locals {
+			if l != t0 {
+				locals = append(locals, l)
+			}
+		}
+		h.Locals = locals
+		if len(*ld.Referrers()) == 0 {
+			removeInstr(ld)
+		}
+	}
 	in.touched[h] = true
 
 	b := instr.Block()
 	idx := instrIdx(instr)
 	var pre []ssa.Instruction
 	mc := &ssa.MakeClosure{Fn: h}
+	for _, ob := range obind {
+		mc.Bindings = append(mc.Bindings, ob)
+		addRef(ob, mc)
+	}
+	if old, ok := cc.Value.(*ssa.MakeClosure); ok {
+		delRef(old, instr)
+	}
 	for i, a := range cc.Args {
 		cell := &ssa.Alloc{Comment: g.Params[i].Name(), Heap: true}
 		ssa.XSetType(cell, types.NewPointer(g.Params[i].Type()))
@@ -1662,7 +1727,25 @@ func (in *inliner) wrapAsClosure(f *ssa.Function, instr ssa.Instruction, cc *ssa
 	out = append(out, pre...)
 	out = append(out, b.Instrs[idx:]...)
 	b.Instrs = out
-	in.sites[g]++
+	if isLit {
+		// the literal with parameters is no longer started anywhere
+		used := false
+		for _, b2 := range f.Blocks {
+			for _, y := range b2.Instrs {
+				for _, op := range y.Operands(nil) {
+					if *op == ssa.Value(g) {
+						used = true
+					}
+				}
+			}
+		}
+		if !used && g.Parent() == f {
+			ssa.XRemoveAnon(f, g)
+		}
+		in.litArgs++
+	} else {
+		in.sites[g]++
+	}
 	in.touched[f] = true
 }
 
@@ -1699,10 +1782,31 @@ func (in *inliner) process(f *ssa.Function) {
 						continue
 					}
 				}
+				if _, isCall := x.(*ssa.Call); !isCall && len(cc.Args) > 0 {
+					// go / defer of a literal of f with arguments
+					var lit *ssa.Function
+					if mc0, ok := cc.Value.(*ssa.MakeClosure); ok {
+						lit, _ = mc0.Fn.(*ssa.Function)
+					} else if fn0, ok := cc.Value.(*ssa.Function); ok && fn0.Parent() == f {
+						lit = fn0
+					}
+					if lit != nil && lit.Parent() == f && lit.Blocks != nil && !in.cand[lit] {
+						site = x
+						break scan
+					}
+				}
 				if g := staticCallee(cc); g != nil {
 					if in.cand[g] {
 						site = x
 						break scan
+					}
+					// a literal without free variables called directly (handed to an inlined helper)
+					if call, isCall := x.(*ssa.Call); isCall && g.Parent() != nil && len(g.FreeVars) == 0 && g != f && g.Blocks != nil && closures < 80 {
+						if _, ok := in.inlinable(g); ok {
+							_ = call
+							site, dyn = x, &funcValue{fn: g, owner: f}
+							break scan
+						}
 					}
 					continue
 				}
@@ -2267,6 +2371,9 @@ func inlineHelpers(tops []*ssa.Function) (dropped map[*ssa.Function]bool, notes 
 	}
 	if len(sk) > 0 {
 		notes = append(notes, "functions not in the baseline left as calls: "+strings.Join(sk, "; "))
+	}
+	if in.litArgs > 0 {
+		notes = append(notes, fmt.Sprintf("%d go/defer statement(s) of a literal with arguments rewritten as a literal capturing fresh variables that hold the arguments", in.litArgs))
 	}
 	return dropped, notes, in.errs
 }
